@@ -6,9 +6,10 @@ EXTENDS SmartAdd, TLC, Json, IOUtils, SequencesExt
 CONSTANTS IgnSets,      \* the ignore lists to enumerate (subsets of Pats)
           MaxArgs       \* at most this many paths are named
 ParentClosed(S) == \A p \in S : Par(p) = "" \/ Par(p) \in S
-Layouts(ign) == {L \in SUBSET (Items \ {"@ign"}) : ParentClosed(L)} 
+\* the helper files of a conflict come together
+Layouts(ign) == {L \in SUBSET (Items \ {"@ign"}) : ParentClosed(L) /\ ("f.THIS" \in L <=> "f.OTHER" \in L)}
 WithIgn(L, ign) == IF ign = {} THEN L ELSE L \cup {"@ign"}
-PreChoices(L) == IF Flavour = "bzr" THEN {P \in SUBSET ({"f", "d", "d/f"} \cap L) : ParentClosed(P)}
+PreChoices(L) == IF Flavour = "bzr" THEN {P \in {{}, {"f"}, {"d"}, {"d", "d/f"}} : P \subseteq L}
                  ELSE SUBSET ({"f", "d/f"} \cap L)
 ConfChoices(L, P) == IF "f" \in P /\ "f.THIS" \in L THEN {{}, {"f"}} ELSE {{}}
 ArgChoices(L) == {A \in SUBSET ({"."} \cup (ArgPaths \cap L)) : A # {} /\ Cardinality(A) <= MaxArgs}
